@@ -117,6 +117,14 @@ def run(ctx):
         e2 = call_guard(lambda: sf.encoding_to_selfies(lab, itos, rng.choice(['both', 'Label', ''])))
         if e2[0] == "ok":
             ctx.finding("bad-enc-type-accepted", payload, repr(e2)[:100])
+        # a label / a hot position outside 0..n-1 names no symbol: raising is the only right answer (-1 is the usual
+        # "ignore" label of training pipelines)
+        nv = len(itos)
+        bad_label = rng.choice([-1, -1, -2, -nv, -nv - 1, nv, nv + 1, 10 ** 9])
+        bad_at = rng.randrange(len(lab) + 1)
+        e0 = call_guard(lambda: sf.encoding_to_selfies(lab[:bad_at] + [bad_label] + lab[bad_at:], itos, 'label'))
+        if e0[0] == "ok":
+            ctx.finding("label-outside-vocabulary-accepted", dict(payload, label=bad_label), repr(e0)[:100])
         missing = '[Zz]'
         e3 = call_guard(lambda: sf.selfies_to_encoding(s + missing, stoi, pad, 'label'))
         if e3[0] == "ok":
